@@ -92,7 +92,7 @@ def check_state(backend, spec, cutoff=8):
         v = gaussian_physical(means, cov)
         return v, {"photons": float(total_photons_gauss(means, cov)), "purity": float(purity_gauss(cov))}
     dm = st.dm()
-    n = spec["n"]
+    n = len(spec["live"]) if "live" in spec else spec["n"]
     # reshape (i0,j0,i1,j1,...) -> matrix
     perm = [2 * i for i in range(n)] + [2 * i + 1 for i in range(n)]
     D = cutoff ** n
@@ -149,12 +149,49 @@ def search(ctx):
                 ctx.counterexample("purity:%s:unitary-changes:%s" % (backend.split("-")[0], ops_), "unitary gates %s changed purity %.9g -> %.9g on %s" % (tail, m0["purity"], m1["purity"], backend), data)
 
 
+def search_histories(ctx):
+    """Programs that create and delete modes along the way: the final state must be physical on every backend."""
+    rng = ctx.rng
+    per = ctx.budget({"gaussian": 50, "bosonic": 40, "fock-pure": 8, "fock-mixed": 8},
+                     {"gaussian": 500, "bosonic": 400, "fock-pure": 60, "fock-mixed": 60})
+    for backend, cnt in per.items():
+        fock = backend.startswith("fock")
+        names = c05_names_f if fock else c05_names_g
+        for _ in range(cnt):
+            spec = sfgen.random_history_spec(rng, [x for x in names if x != "Fock"], max_total=3 if fock else 4, cmd_fn=bc.weak_cmd)
+            # make the state correlated and complex before modes are added: entangle the initial modes first
+            pre = [c for c in bc.weak_prefix(rng, spec["n"]) if not (fock and c[0] == "ThermalLossChannel")]
+            spec["cmds"] = pre + spec["cmds"]
+            data = {"check": "hist", "backend": backend, "spec": spec}
+            try:
+                v, m = check_state(backend, spec)
+            except Exception as e:
+                ctx.counterexample("history:%s:raises:%s" % (backend.split("-")[0], type(e).__name__), "running a New/Del history raised %r" % e, data)
+                continue
+            nd = sum(1 for c in spec["cmds"] if c[0] in ("New", "Del"))
+            ctx.case({"backend": backend, "history": [c[0] for c in spec["cmds"]]}, nontrivial=nd > 0, bucket="hist-%s" % backend)
+            if v:
+                ctx.counterexample("history:%s:%s" % (backend.split("-")[0], v.split("(")[0]), "state after a history with mode creation/deletion is not physical on %s: %s" % (backend, v), data)
+
+
+_search_circuits = search
+
+
+def search(ctx):
+    _search_circuits(ctx)
+    search_histories(ctx)
+
+
 c05_names_g = list(sfgen.GAUSSIAN_GATES) + list(sfgen.CHANNELS) + list(sfgen.PREPS)
 c05_names_f = [x for x in c05_names_g if x not in ("ThermalLossChannel", "Thermal")] + ["Kgate", "Vgate", "CKgate", "Fock"]
 
 
 def replay(ctx, data):
     d = data["data"]
+    if d.get("check") == "hist":
+        v, m = check_state(d["backend"], d["spec"])
+        print("state:", v, m)
+        return bool(v)
     if d.get("check") != "phys":
         return False
     v0, m0 = check_state(d["backend"], {"n": d["n"], "cmds": d["pre"]})
